@@ -190,8 +190,111 @@ func authorityVsHost() {
 	os.RemoveAll(dir)
 }
 
+// redirectsAndWrites: (1) a redirect is the origin's answer: status, Location, further headers and body reach the client
+// and the origin is not asked for the target on the client's behalf (a POST is not re-issued as a GET); (2) a write that
+// carries a precondition (If-Match, If-None-Match: *, If-Unmodified-Since) reaches the origin WITH it.
+func redirectsAndWrites() {
+	for _, tlsOn := range []bool{false, true} {
+		dir := filepath.Join(*flagOut, fmt.Sprintf("envrw-%v", tlsOn))
+		env, err := e2elib.Start(e2elib.Options{Backend: "memory", Dir: dir, TLS: tlsOn})
+		if err != nil {
+			panic(err)
+		}
+		env.Origin.SetHandler(func(req e2elib.OriginRequest, k int) e2elib.Answer {
+			if strings.HasPrefix(req.Target, "/moved/") {
+				var st int
+				fmt.Sscanf(strings.TrimPrefix(req.Target, "/moved/"), "%d", &st)
+				loc := "/target/" + strings.TrimPrefix(req.Target, "/moved/")
+				if st%2 == 0 {
+					loc = "http://" + env.Origin.Addr + loc
+				}
+				return e2elib.NewAnswer(st, []byte("moved, see "+loc), "Location: "+loc, "X-Origin-Note: redirect-"+fmt.Sprint(st), "Cache-Control: max-age=60")
+			}
+			if strings.HasPrefix(req.Target, "/doc/") {
+				if im := req.Header.Get("If-Match"); im != "" && im != "\"v2\"" {
+					return e2elib.NewAnswer(412, []byte("precondition failed"))
+				}
+				if req.Header.Get("If-None-Match") == "*" || req.Header.Get("If-Unmodified-Since") != "" {
+					return e2elib.NewAnswer(412, []byte("precondition failed"))
+				}
+				return e2elib.NewAnswer(204, nil, "ETag: \"v3\"")
+			}
+			return e2elib.NewAnswer(200, []byte("T="+req.Target), "Cache-Control: max-age=60")
+		})
+		do := func(method, path string, hs []string, body []byte) (*e2elib.Response, error) {
+			if tlsOn {
+				c, _, err := env.DialTunnel(env.Origin.Addr, "127.0.0.1", 8*time.Second)
+				if err != nil {
+					return nil, err
+				}
+				defer c.Close()
+				c.Send(env.TunnelRequest(method, path, hs, body), 5*time.Second)
+				return c.Read(method, 6*time.Second)
+			}
+			return env.DoPlain(env.PlainRequest(method, path, hs, body), method, 6*time.Second)
+		}
+		for _, st := range []int{301, 302, 303, 307, 308} {
+			for _, method := range []string{"GET", "POST", "GET"} {
+				path := fmt.Sprintf("/moved/%d", st)
+				var body []byte
+				var hs []string
+				if method == "POST" {
+					body = []byte("form=data")
+					hs = []string{"Content-Length: 9"}
+				}
+				env.Origin.ResetLog()
+				resp, err := do(method, path, hs, body)
+				total++
+				dist["redirect-relayed"]++
+				det := map[string]any{"request": method + " " + path, "origin_answer": fmt.Sprintf("%d with Location, X-Origin-Note and a body", st), "tls": tlsOn}
+				var saw []string
+				askedTarget := false
+				for _, lr := range env.Origin.Log() {
+					saw = append(saw, lr.Method+" "+lr.Target)
+					if strings.HasPrefix(lr.Target, "/target/") {
+						askedTarget = true
+					}
+				}
+				det["origin_saw"] = saw
+				switch {
+				case err != nil:
+					fail("redirect-relayed", det, "no response: "+err.Error())
+				case resp.Status != st || resp.Header.Get("Location") == "" || resp.Header.Get("X-Origin-Note") != "redirect-"+fmt.Sprint(st) || !strings.HasPrefix(string(resp.Body), "moved, see "):
+					det["status"], det["location"], det["x_origin_note"], det["body"] = resp.Status, resp.Header.Get("Location"), resp.Header.Get("X-Origin-Note"), trunc(string(resp.Body))
+					fail("redirect-relayed", det, "the origin answered with a redirect; the client did not receive that answer (status, Location, headers, body)")
+				case askedTarget:
+					fail("redirect-relayed", det, "the origin received a request for the redirect target that the client never sent")
+				}
+			}
+		}
+		for i, pre := range [][]string{{"If-Match: \"v1\""}, {"If-None-Match: *"}, {"If-Unmodified-Since: Mon, 01 Jan 2024 00:00:00 GMT"}, {"If-Match: \"v2\""}} {
+			for _, method := range []string{"PUT", "DELETE", "PATCH", "POST"} {
+				path := fmt.Sprintf("/doc/%d-%s", i, method)
+				body := []byte("new content")
+				resp, err := do(method, path, append([]string{"Content-Length: 11"}, pre...), body)
+				total++
+				dist["write-precondition"]++
+				want := 412
+				if i == 3 {
+					want = 204
+				}
+				det := map[string]any{"request": method + " " + path + " with " + pre[0], "tls": tlsOn, "origin_would_answer": want}
+				if err != nil {
+					fail("write-precondition", det, "no response: "+err.Error())
+				} else if resp.Status != want {
+					det["status"] = resp.Status
+					fail("write-precondition", det, "a write carrying a precondition did not reach the origin with it: the origin applied (or refused) the write the client had made conditional")
+				}
+			}
+		}
+		env.Close()
+		os.RemoveAll(dir)
+	}
+}
+
 func runC08x(r *emit.Rand) {
 	authorityVsHost()
+	redirectsAndWrites()
 	n := 40
 	if *flagTier == "thorough" {
 		n = 400
